@@ -140,6 +140,11 @@ ReconfCall ==
                       !.callOpens = PutF(@, Ev.rid, GetF(st.popens, Ev.proc, 0))]
   /\ UNCHANGED viol
 
+\* the caller itself gave up (its own context ended): no statement about the outcome.  An error that merely LOOKS like
+\* that (a deadline the engine put on the call on its own) while the caller had set none is a failure like any other.
+GaveUp == /\ "sentinel" \in DOMAIN Ev.err /\ Ev.err.sentinel \in {"context.Canceled", "context.DeadlineExceeded"}
+          /\ ("caller_deadline" \notin DOMAIN Ev \/ Ev.caller_deadline)
+
 ReconfRet ==
   /\ IsEvent("ReconfRet")
   /\ IF Ev.err.nil
@@ -149,12 +154,10 @@ ReconfRet ==
             \* requests possibly a later one - so: some new processor was opened since this request was made)
             /\ viol' = viol \cup Add(GetF(st.popens, Ev.proc, 0) > GetF(st.callOpens, Ev.rid, 0), "AppliedIsInForce",
                                      <<Ev.proc, Ev.geni, "reported applied but no configuration was opened for this request">>)
-       ELSE /\ st' = [st EXCEPT !.failedGen = IF "sentinel" \in DOMAIN Ev.err /\ Ev.err.sentinel \in {"context.Canceled", "context.DeadlineExceeded"}
-                                                THEN @ ELSE @ \cup {Ev.geni}]
+       ELSE /\ st' = [st EXCEPT !.failedGen = IF GaveUp THEN @ ELSE @ \cup {Ev.geni}]
             \* the caller got an error (not a mere give-up): that configuration never handled a record
             /\ viol' = viol
-                 \cup (IF "sentinel" \in DOMAIN Ev.err /\ Ev.err.sentinel \in {"context.Canceled", "context.DeadlineExceeded"}
-                        THEN {}
+                 \cup (IF GaveUp THEN {}
                         ELSE Add(\A k \in DOMAIN st.gens : Ev.geni \notin st.gens[k], "FailedOpenKeepsOld", <<Ev.proc, Ev.geni>>))
 
 Write ==
